@@ -46,15 +46,19 @@ var importName = map[string]string{
 	"io/ioutil": "ioutil",
 }
 
+// time functions rewritten to their simrt counterparts (Sleep releases the
+// baton; timers get a unique nanosecond offset so that ties never occur)
+var timeFuncs = map[string]bool{"Sleep": true, "NewTimer": true, "NewTicker": true, "After": true, "Tick": true, "AfterFunc": true}
+
 const krakenPrefix = "github.com/uber/kraken/"
 
 var skipDirs = []string{"/mocks/", "/tools/", "/test/", "/examples/", "/gen/"}
 
 type census struct {
 	Files, Go, Send, Recv, Select, RangeChan, RangeMap, Sleep, Imports, Fatal, Decorate int
-	Packages                                                                           int
-	Skipped                                                                            []string
-	PointerKeyRanges                                                                   []string
+	Packages                                                                            int
+	Skipped                                                                             []string
+	PointerKeyRanges                                                                    []string
 }
 
 var (
@@ -143,19 +147,19 @@ func main() {
 }
 
 type rewriter struct {
-	pkg      *packages.Package
-	info     *types.Info
-	fset     *token.FileSet
-	file     *ast.File
-	needSim  bool
-	needHook bool
-	n        int
+	pkg       *packages.Package
+	info      *types.Info
+	fset      *token.FileSet
+	file      *ast.File
+	needSim   bool
+	needHook  bool
+	n         int
 	rangeKind map[*ast.RangeStmt]int // 1 chan, 2 map
 	goInline  map[*ast.GoStmt][]bool
 	isSleep   map[*ast.CallExpr]bool
-	recvOf    map[ast.Expr]ast.Expr           // generated Recv/Recv2 call -> channel expr
-	sendOf    map[ast.Expr][2]ast.Expr        // generated SendTo call -> (ch, v)
-	relabel   map[*ast.BlockStmt]int          // generated block whose last stmt must carry an outer label
+	recvOf    map[ast.Expr]ast.Expr    // generated Recv/Recv2 call -> channel expr
+	sendOf    map[ast.Expr][2]ast.Expr // generated SendTo call -> (ch, v)
+	relabel   map[*ast.BlockStmt]int   // generated block whose last stmt must carry an outer label
 	err       error
 }
 
@@ -222,7 +226,7 @@ func rewriteFile(p *packages.Package, f *ast.File) (bool, []byte, error) {
 			}
 			r.goInline[x] = fl
 		case *ast.CallExpr:
-			if se, ok := x.Fun.(*ast.SelectorExpr); ok && se.Sel.Name == "Sleep" {
+			if se, ok := x.Fun.(*ast.SelectorExpr); ok && timeFuncs[se.Sel.Name] {
 				if id, ok := se.X.(*ast.Ident); ok {
 					if pn, ok := r.info.Uses[id].(*types.PkgName); ok && pn.Imported().Path() == "time" {
 						r.isSleep[x] = true
@@ -285,7 +289,7 @@ func rewriteFile(p *packages.Package, f *ast.File) (bool, []byte, error) {
 			cs.Recv++
 		case *ast.CallExpr:
 			if r.isSleep[x] {
-				x.Fun = sel("simrt", "Sleep")
+				x.Fun = sel("simrt", x.Fun.(*ast.SelectorExpr).Sel.Name)
 				r.needSim = true
 				cs.Sleep++
 			}
